@@ -1,5 +1,7 @@
 import RbV.Basic.Codec
 import RbV.Ref.EditDist
+import RbV.Model.Ukkonen
+import RbV.Model.MyersSimple
 /-! Driver for property C09: approximate matchers and distance functions.
 
 `c09 my <s|l> <w> <new|bld> <pattern> <amb> <wild> <op>/… => <obs>/…`
@@ -63,6 +65,16 @@ def expectOp (eqv : Nat → Nat → Bool) (p : List Nat) (op : String) : Option 
     | none => none
   | _ => none
 
+/-- the mirror model of the single-word matcher (`Model.MyersSimple`, proved equal to the oracle for 1 ≤ |p| ≤ w) on a
+`f:<k>:<text>` operation; `none` for the other operations -/
+def modelOp (w : Nat) (eqv : Nat → Nat → Bool) (p : List Nat) (op : String) : Option String :=
+  match op.splitOn ":" with
+  | ["f", ks, th] =>
+    match parseNat ks, parseHex th with
+    | some k, some t => some (showPairs (RbV.Model.MyersSimple.findAllEnd w eqv p t k))
+    | _, _ => none
+  | _ => none
+
 def dedupTags (s : String) : String :=
   let ws := (s.splitOn " ").filter (· ≠ "")
   let u := ws.foldl (fun acc x => if acc.contains x then acc else acc ++ [x]) []
@@ -89,7 +101,14 @@ def verdictMy (toks : List String) (out : String) : String :=
         let ok := (exps.zip obs).all fun (e, o) => match e.1 with
           | some s => s == o
           | none => true
+        -- single-word version: run the mirror model too; it is proved equal to the oracle, so a difference between
+        -- model and oracle is a drift of the compiled driver, never a violation
+        let drift := impl = "s" && (ops.zip exps).any fun (op, e) =>
+          match modelOp w eqv p op, e.1 with
+          | some ms, some es => ms != es
+          | _, _ => false
         let tags := dedupTags (String.join (exps.map (·.2)) ++ " " ++ impl ++ toString w
+          ++ (if drift then " drift" else "")
           ++ (if p.length = w then " m=w" else "") ++ (if p.length > w then " blocks>1" else "")
           ++ (if p.length > 2 * w then " blocks>2" else "")
           ++ (if !amb.isEmpty || !wild.isEmpty then " tables" else "") ++ (if ops.length > 1 then " reuse" else ""))
@@ -144,11 +163,21 @@ def verdictUk (toks : List String) (out : String) : String :=
       | none => "bad-op uk-search"
       | some es =>
         let strs := es.map (fun e => showPairs e.1)
+        -- the mirror model of the Rust code (cut-off column with stale cells) is run on the same searches; it is
+        -- proved equal to the oracle (`ukkonen_eq`), so a difference can only mean model and compiled driver drifted
+        let modelStrs := searches.map fun s =>
+          match s.splitOn ":" with
+          | [ks, ph, th] =>
+            match parseNat ks, parseHex ph, parseHex th with
+            | some k, some p, some t => showPairs (RbV.Model.Ukkonen.findAllEnd w p t k)
+            | _, _, _ => "?"
+          | _ => "?"
+        let drift := if modelStrs = strs then "" else " drift"
         if strs = obs then
           let nt := es.any fun e => !e.1.isEmpty && e.1.length < e.2 && e.1.any (fun h => h.2 > 0)
           "ok uk" ++ (if nt then " nt" else "") ++ (if cs = "unit" then " unit" else " table")
-            ++ (if es.length > 1 then " reuse" else "")
-        else "diff " ++ "/".intercalate strs
+            ++ (if es.length > 1 then " reuse" else "") ++ drift
+        else "diff " ++ "/".intercalate strs ++ (if modelStrs = obs then " (mirror model agrees with the implementation)" else "")
   | _ => "bad-op uk-arity"
 
 def verdictDist (toks : List String) (out : String) : String :=
